@@ -343,6 +343,54 @@ theorem C18_override_own (attrs : Nat → KW) (st : OvStore) (a t : Nat) (kw : K
       | none => kget (attrs a) k) :=
   resolve_enter_self attrs st a t kw k
 
+/-- The overrides of an invocation are removed on EVERY path out of it — also when `_call` raises:
+whatever the body does (`body` may return `.error`), the store after the invocation is the store
+before it, so every member of every functor object resolves, in every thread, as before. -/
+theorem C18_override_restored_on_raise {ε α : Type} (attrs : Nat → KW) (st : OvStore) (a t : Nat) (kw : KW)
+    (body : OvStore → Except ε α) (b t' : Nat) (k : Name) :
+    (withOverrides st a t kw body).1 = st ∧
+    resolve attrs (withOverrides st a t kw body).1 b t' k = resolve attrs st b t' k :=
+  ⟨withOverrides_store st a t kw body, by rw [withOverrides_store]⟩
+
+/-- The same statement for the variant without `finally` (the restore is skipped when the body
+raises). -/
+def C18_noFinally_restored_Full : Prop :=
+  ∀ (attrs : Nat → KW) (st : OvStore) (a t : Nat) (kw : KW) (body : OvStore → Except Unit Unit) (b t' : Nat)
+    (k : Name),
+    resolve attrs (withOverridesNoFinally st a t kw body).1 b t' k = resolve attrs st b t' k
+
+/-- `r = Ratio(8)` (den = 2 by default); `r(den=0)` raises; afterwards `r.den` reads 0. -/
+theorem C18_noFinally_counterexample : ¬ C18_noFinally_restored_Full := by
+  intro h
+  have := h (fun _ => [(0, 8), (1, 2)]) [] 1 0 [(1, 0)] (fun _ => .error ()) 1 0 1
+  revert this
+  decide
+
+/-- Without `**kwargs`, a call-time keyword that names no parameter — in particular one named like
+the `*args` parameter — is refused by the functor (no `ignore_extra_args`) exactly as by the plain
+function: both raise `TypeError`. (With `**kwargs` declared the real code deviates: finding F355.) -/
+theorem C18_unknown_call_keyword_refused (s : Sig) (c1 c2 : Call) (o : Bool) (o? : Option Bool)
+    (F : Functor) (hF : functorInit s c1 o false = .ok F) (hv : s.varkw = none)
+    (h : ∃ p ∈ c2.kwargs, s.names.contains p.1 = false) :
+    functorCall true F c2 o? none = .error .typeError ∧ pyCall s c2 = .error .typeError := by
+  have hsig : F.sig = s ∧ F.ignoreExtraArgs = false := by
+    unfold functorInit at hF
+    simp only at hF
+    split at hF
+    · cases hF
+    · split at hF
+      · cases hF
+      · split at hF
+        · cases hF
+        · split at hF
+          · cases hF
+          · cases hF; exact ⟨rfl, rfl⟩
+  exact functorCall_unknown_keyword s F hsig.1 c2 o? hv hsig.2 h
+
+-- the keyword named like *args (name 4) of `def f(a, *args)` at call time
+example : ∃ p ∈ (⟨[1], [(4, 5)]⟩ : Call).kwargs,
+    (⟨[⟨0, none⟩], some 4, [], none⟩ : Sig).names.contains p.1 = false := ⟨(4, 5), by simp, by decide⟩
+
 /-- Isolation for the variant with one `threading.local` shared by all functor objects. -/
 def C18_sharedTLS_isolation_Full : Prop :=
   ∀ (attrs : Nat → KW) (st : OvStore) (a t b t' : Nat) (kw : KW) (k : Name), ¬ (b = a ∧ t' = t) →
